@@ -1,7 +1,7 @@
 """Contracts for battery status tracking (C16)."""
 import math
 
-from pyvc.spec import (contract, Obj, Rec, Opt, Seq, SetOf, Enum, ExtObj, Float, Int, Bool, Time, Delta, implies,
+from pyvc.spec import (contract, Obj, Rec, Opt, Seq, SetOf, Enum, ExtObj, Float, Int, Bool, Time, Delta, Const, Variant, OpaqueT, implies,
                        forall, exists)
 
 CS = "frequenz.sdk.microgrid._power_distributing._component_status"
@@ -296,6 +296,11 @@ class NewStatusIfChanged:
         returned_is_new="implies(result is not None, result == self._last_status)",
         working_only_if_both_correct="implies(self._last_status != ComponentStatusEnum.NOT_WORKING, both_correct(self))",
         not_working_iff="(self._last_status == ComponentStatusEnum.NOT_WORKING) == (not both_correct(self))",
+        blocking_only_cleared_on_recovery="self._blocking_status.blocked_until == old(self._blocking_status.blocked_until)"
+                                          " or (self._blocking_status.blocked_until is None and both_correct(self)"
+                                          "     and old(self._last_status) == ComponentStatusEnum.NOT_WORKING)",
+        flags_untouched="self._battery.last_msg_correct == old(self._battery.last_msg_correct)"
+                        " and self._inverter.last_msg_correct == old(self._inverter.last_msg_correct)",
     )
 
 
@@ -323,6 +328,8 @@ class HandleSetPowerResult:
         flags_untouched="self._battery.last_msg_correct == old(self._battery.last_msg_correct)"
                         " and self._inverter.last_msg_correct == old(self._inverter.last_msg_correct)"
                         " and self._last_status == old(self._last_status)",
+        blocking_durations_stay_in_range="self._blocking_status.min_duration <= self._blocking_status.last_blocking_duration"
+                                         " and self._blocking_status.last_blocking_duration <= self._blocking_status.max_duration",
     )
 
 
@@ -349,3 +356,118 @@ class GetWorkingComponents:
         fallback_complete="implies(k in self.uncertain and k in components and not (k in result),"
                           " (j in result) == (j in self.working and j in components))",
     )
+
+
+# --- the select loop -----------------------------------------------------------------------------------
+# Which of the five sources produced the event is a tag carried by the source objects and by the selected item
+# (frequenz.channels.select / selected_from are assumed: select yields items of its arguments, selected_from(s, r)
+# is true exactly for the source r that produced s).
+SRC_BAT = 0
+SRC_BAT_TIMER = 1
+SRC_INV_TIMER = 2
+SRC_INV = 3
+SRC_RESULT = 4
+SRC_OTHER = 5
+
+
+def _rx(tag):
+    return ExtObj("frequenz.channels.Receiver", tag=Const(tag))
+
+
+def _selected(tag, message):
+    return Rec("ext:frequenz.channels.Selected", origin=Const(tag), message=message)
+
+
+SelectedT = Variant(_selected(SRC_BAT, BatteryDataT), _selected(SRC_INV, InverterDataT), _selected(SRC_RESULT, SetPowerResultT),
+                    _selected(SRC_BAT_TIMER, Const(None)), _selected(SRC_INV_TIMER, Const(None)),
+                    _selected(SRC_OTHER, Const(None)))
+BatStreamT = Obj(f"{T}:_ComponentStreamStatus", component_id=Int,
+                 data_recv_timer=ExtObj("frequenz.channels.timer.Timer", tag=Const(SRC_BAT_TIMER)),
+                 last_msg_timestamp=Time, last_msg_correct=Bool)
+InvStreamT = Obj(f"{T}:_ComponentStreamStatus", component_id=Int,
+                 data_recv_timer=ExtObj("frequenz.channels.timer.Timer", tag=Const(SRC_INV_TIMER)),
+                 last_msg_timestamp=Time, last_msg_correct=Bool)
+RunTrackerT = Obj(f"{T}:BatteryStatusTracker", _max_data_age=Delta, _last_status=StatusT, _blocking_status=BlockingT,
+                  _timedelta_zero=Delta, _battery=BatStreamT, _inverter=InvStreamT)
+StatusSenderT = ExtObj("frequenz.channels.Sender", methods=dict(send=dict(
+    is_async=True, effects={"n_sent": "self.n_sent + 1", "last": "args[0].value", "last_id": "args[0].component_id"})),
+    n_sent=Int, last=StatusT, last_id=Int)
+ApiT = ExtObj("ApiClient", methods=dict(battery_data=dict(is_async=True, returns="bat_rx"),
+                                        inverter_data=dict(is_async=True, returns="inv_rx")))
+
+RUN_INV = dict(
+    TRACKER_REQ,
+    status_is_function_of_flags="(self._last_status == ComponentStatusEnum.NOT_WORKING) == (not both_correct(self))",
+    last_notification_is_current_status="implies(status_sender.n_sent > 0, status_sender.last == self._last_status"
+                                        " and status_sender.last_id == self._battery.component_id)",
+)
+RUN_HAVOC = {"self._last_status": StatusT, "self._battery.last_msg_timestamp": Time, "self._battery.last_msg_correct": Bool,
+             "self._inverter.last_msg_timestamp": Time, "self._inverter.last_msg_correct": Bool,
+             "self._blocking_status.blocked_until": Opt(Time), "self._blocking_status.last_blocking_duration": Delta,
+             "status_sender.n_sent": Int, "status_sender.last": StatusT, "status_sender.last_id": Int,
+             "status_sender.calls": OpaqueT("log"), "status_sender.results": OpaqueT("log")}
+# (the timers' call logs are recording devices of the model, not program state: no clause of this contract reads them)
+
+
+def stale(last_ts, now, max_age):
+    """The timer guard's view: the last message is at least max_age old."""
+    return not (now - last_ts < max_age)
+
+
+@contract(f"{T}:BatteryStatusTracker._run")
+class TrackerRun:
+    """The select loop: every event is dispatched to its handler, the status is re-evaluated after every handled
+    event and a notification is sent exactly when it changed.  A data timer that fires while the stream's last message
+    is at least max_data_age old marks THAT stream as not correct (status NOT_WORKING)."""
+    mode = "ieee"
+    self_shape = RunTrackerT
+    shapes = dict(status_sender=StatusSenderT, set_power_result_receiver=_rx(SRC_RESULT))
+    ghost = dict(conn=ExtObj("ConnectionManager", api_client=ApiT), bat_rx=_rx(SRC_BAT), inv_rx=_rx(SRC_INV),
+                 sel=ExtObj("select", stream=SelectedT))
+    externals = {"frequenz.sdk.microgrid.connection_manager:get": "conn",
+                 "frequenz.channels.select": "sel",
+                 "frequenz.channels.selected_from": "args[0].origin == args[1].tag"}
+    use = {f"{T}:BatteryStatusTracker._no_critical_error": f"{T}:BatteryStatusTracker._no_critical_error"}
+    inline = [f"{T}:BatteryStatusTracker.battery_id"]
+    modifies = ["self._last_status", "self._battery", "self._inverter", "self._blocking_status", "status_sender", "conn",
+                "bat_rx", "inv_rx", "sel"]
+    requires = dict(RUN_INV, nothing_sent_yet="status_sender.n_sent == 0")
+    loops = {
+        "while True": dict(havoc_fields=RUN_HAVOC, invariant=RUN_INV),
+        "async for selected in select( battery, battery_timer, inverter_timer, inverter, set_power_result, )": dict(
+            havoc_fields=RUN_HAVOC, invariant=RUN_INV,
+            ghost_pre=["pre_status = self._last_status", "pre_n = status_sender.n_sent",
+                       "pre_bat_ts = self._battery.last_msg_timestamp", "pre_inv_ts = self._inverter.last_msg_timestamp",
+                       "pre_bat_ok = self._battery.last_msg_correct", "pre_inv_ok = self._inverter.last_msg_correct"],
+            step=dict(
+                notification_iff_status_changed="status_sender.n_sent == pre_n + (1 if self._last_status != pre_status else 0)",
+                inverter_silence_detected="implies(selected.origin == SRC_INV_TIMER and stale(pre_inv_ts, now_0, self._max_data_age),"
+                                          " not self._inverter.last_msg_correct"
+                                          " and self._last_status == ComponentStatusEnum.NOT_WORKING)",
+                battery_silence_detected="implies(selected.origin == SRC_BAT_TIMER and stale(pre_bat_ts, now_0, self._max_data_age),"
+                                         " not self._battery.last_msg_correct"
+                                         " and self._last_status == ComponentStatusEnum.NOT_WORKING)",
+                timers_touch_only_their_stream="implies(selected.origin == SRC_INV_TIMER, self._battery.last_msg_correct == pre_bat_ok)"
+                                               " and implies(selected.origin == SRC_BAT_TIMER, self._inverter.last_msg_correct == pre_inv_ok)",
+                battery_message_judged="implies(selected.origin == SRC_BAT, self._battery.last_msg_timestamp == selected.message.timestamp"
+                                       " and self._battery.last_msg_correct == (fresh(selected.message.timestamp, now_0, self._max_data_age)"
+                                       " and battery_state_ok(selected.message) and not has_critical(selected.message)"
+                                       " and not math.isnan(selected.message.capacity))"
+                                       " and self._inverter.last_msg_correct == pre_inv_ok)",
+                inverter_message_judged="implies(selected.origin == SRC_INV, self._inverter.last_msg_timestamp == selected.message.timestamp"
+                                        " and self._inverter.last_msg_correct == (fresh(selected.message.timestamp, now_0, self._max_data_age)"
+                                        " and inverter_state_ok(selected.message) and not has_critical(selected.message))"
+                                        " and self._battery.last_msg_correct == pre_bat_ok)",
+                success_unblocks="implies(selected.origin == SRC_RESULT and self._battery.component_id in selected.message.succeeded,"
+                                 " self._blocking_status.blocked_until is None)",
+                failure_blocks_usable_battery="implies(selected.origin == SRC_RESULT"
+                                              " and not (self._battery.component_id in selected.message.succeeded)"
+                                              " and self._battery.component_id in selected.message.failed"
+                                              " and pre_status != ComponentStatusEnum.NOT_WORKING,"
+                                              " self._blocking_status.blocked_until is not None)",
+                results_do_not_touch_flags="implies(selected.origin == SRC_RESULT, self._battery.last_msg_correct == pre_bat_ok"
+                                           " and self._inverter.last_msg_correct == pre_inv_ok)",
+            )),
+    }
+    never_returns = True
+    ensures = dict(never_returns="False")
